@@ -1,5 +1,5 @@
 (* Properties/C01.v — pinned statements for C01 (top-level transactions are atomic, ordered). *)
-From Verif Require Import Base OMap Text Proto Bank Exec ExecFacts ExecFacts2 ChkExec.
+From Verif Require Import Base OMap Text Proto Bank Exec ExecFacts ExecFacts2 ChkExec ChkX ExecOracle ExecOracleS ExecOracleH.
 
 (* ALL-OR-NOTHING, failure half: for every environment, state, entry point (execute, execute_multi, sudo,
    wasm_sudo, the Executor helpers), every message tree and every point at which an error is raised:
@@ -56,3 +56,32 @@ Example succeeding_multi_exists :
                                          MExec [98] (ex_prog 2 (OResp [] [] (Some [5]) SNil)) []] empty_chain = (tr, Ok (rs, s'))
                    /\ length rs = 2%nat /\ s' <> empty_chain.
 Proof. eexists. eexists. eexists. vm_compute. split; [reflexivity|]. split; [reflexivity|discriminate]. Qed.
+
+(* ---------- what the correspondence check relies on ---------- *)
+(* The run-time oracle p_c01 (ChkX.v, clauses 5-9) accepts the model's own run of EVERY well-formed scenario, in every
+   case environment: an implementation that behaves exactly like the model is never flagged, and "agrees with the
+   model" implies "satisfies the oracle's reading of C01".
+   Premise [wf_scenario] (ExecOracle.v) is what the generator guarantees (harness/exec_common/src/gen.rs): in every
+   program of every call — sub-messages and reply handlers at every depth — the first action writes the marker
+   "m<node>" and no other action writes or removes the marker of any node; the markers of all the nodes of the
+   scenario are pairwise different.  [model_steps] builds the step records from the model's own run (only the block and
+   the call of each input step are used).
+   Premise [helpers_ok] (ExecOracleH.v) concerns the two Executor helpers only, which parse the protobuf response AFTER
+   the transaction is committed (executor.rs:82-101, 141-159): they are used with the message kind their Rust signature
+   builds, the addresses of the case's address book are non-empty, and lengths are below 2^70 — so that this parse
+   cannot fail (otherwise the model itself returns an error with the state committed, which clause 5 rejects). *)
+Theorem C01_model_ok ce steps : wf_scenario steps -> helpers_ok ce steps ->
+  c01 ce (model_steps ce steps empty_chain) = Agree.
+Proof. exact (c01_model_ok_h ce steps). Qed.
+Print Assumptions C01_model_ok.
+
+Example C01_model_ok_applies :
+  wf_scenario ex_scenario /\ helpers_ok ex_ce ex_scenario /\ c01 ex_ce (model_steps ex_ce ex_scenario empty_chain) = Agree.
+Proof. exact (conj ex_scenario_wf (conj ex_scenario_helpers_ok (proj1 ex_scenario_checks_agree))). Qed.
+
+(* conversely, an Agree verdict of the check means: the oracle accepted every step of what the IMPLEMENTATION did, and
+   trace, outcome and state agreed with the model at every step *)
+Theorem C01_agree_sound ce steps : c01 ce steps = Agree ->
+  oracle_steps p_c01 steps 0 = None /\ corr ce steps empty_chain 0 = None.
+Proof. exact (check_with_agree_sound p_c01 ce steps). Qed.
+Print Assumptions C01_agree_sound.
